@@ -1738,7 +1738,11 @@ class Store:
                 else:
                     if path is None:
                         path = (key,)
-                    node = self.get_path(path)
+                    try:
+                        node = self.get_path(path)
+                    except Exception:  # pylint: disable=broad-except
+                        # get_path raises for a path that does not exist
+                        node = None
                     if node:
                         state[key] = node.schema_topology(subschema, {})
                     else:
